@@ -5,6 +5,7 @@ import (
 	"errors"
 	"fmt"
 	"io"
+	"sort"
 
 	"github.com/gregoryv/mq"
 	"pgregory.net/rapid"
@@ -65,10 +66,10 @@ func sameResult(a, b readResult) string {
 }
 
 // readScripted reads one packet from a scripted reader under the guard.
-func readScripted(sr *guard.ScriptReader, size int, c interface{}) readResult {
+func readScripted(sr *guard.ScriptReader, size int, c func() interface{}) readResult {
 	var p mq.ControlPacket
 	var err error
-	pan := guard.Watched(size, func() []byte { return mustJSON(c) }, func() {
+	pan := guard.Watched(size, func() []byte { return mustJSON(c()) }, func() {
 		p, err = mq.ReadPacket(sr)
 	})
 	return resultOf(p, err, pan)
@@ -78,6 +79,14 @@ func readScripted(sr *guard.ScriptReader, size int, c interface{}) readResult {
 // present): valid frames from the reference encoder or the library, or
 // content-malformed ones with a consistent remaining length.
 func genCompleteFrame(t *rapid.T, small bool) (frame []byte, kind string) {
+	if !small && rapid.IntRange(0, 39).Draw(t, "largeframe") == 0 {
+		// a large frame: remaining length in its 3- or 4-byte form
+		m := model.New(model.PUBLISH)
+		m.TopicName = "big"
+		padToRemainingLength(&m, rapid.SampledFrom([]int{70000, 1<<20 - 1, 1<<20 + 7, 2097151, 2097152, 2097153, 3 << 20}).Draw(t, "largerl"))
+		m.Normalize()
+		return ref.Canonical(&m), "valid-large"
+	}
 	switch k := rapid.IntRange(0, 9).Draw(t, "framekind"); {
 	case k < 4:
 		_, f, _, _ := genValidFrame(t, small)
@@ -186,6 +195,37 @@ func schedule(chunks []int, zeros, eofWithLast bool) []guard.Step {
 func drawChunks(t *rapid.T, n int) []int {
 	if n == 0 {
 		return nil
+	}
+	if n > 4096 {
+		// long frames: segment sizes as on a network, or a few random cuts
+		switch rapid.IntRange(0, 3).Draw(t, "longchunkmode") {
+		case 0:
+			return []int{n / 2, n - n/2}
+		case 1:
+			h := rapid.IntRange(1, 5).Draw(t, "hdrsplit")
+			return []int{h, n - h}
+		case 2:
+			seg := rapid.SampledFrom([]int{512, 1460, 4096, 16384}).Draw(t, "segment")
+			var out []int
+			for left := n; left > 0; left -= seg {
+				if left < seg {
+					out = append(out, left)
+					break
+				}
+				out = append(out, seg)
+			}
+			return out
+		default:
+			cuts := rapid.SliceOfNDistinct(rapid.IntRange(1, n-1), 1, 6, func(v int) int { return v }).Draw(t, "cuts")
+			sort.Ints(cuts)
+			var out []int
+			prev := 0
+			for _, c := range cuts {
+				out = append(out, c-prev)
+				prev = c
+			}
+			return append(out, n-prev)
+		}
 	}
 	switch rapid.IntRange(0, 4).Draw(t, "chunkmode") {
 	case 0: // byte-wise
